@@ -821,6 +821,12 @@ func VerifC09_Revert() {
 	c09RevertCheck(c09RevertScenario(c09AllKinds, c09LightKinds, false), nil)
 }
 
+// VerifC09_RevertBystander: one-step revert next to a second, dirty account
+// (both are folded by the Finalise that follows, in either order).
+func VerifC09_RevertBystander() {
+	c09RevertCheck(c09RevertScenario(c09LiveKinds, []int{c09Dirty}, false), nil)
+}
+
 // VerifC09_RevertNested: the same with a nested snapshot/operation/revert pair
 // between the operation and the outer revert.
 func VerifC09_RevertNested() {
